@@ -29,6 +29,12 @@ C['C07'] = ("proof", "Lean theorems C07_rejoin_single_source (for every event se
 C['C10'] = ("proof", "Lean 4 heap model of Frame (arrays, frames, jpg and ro caches, all 18 operations) with theorems over arbitrary op sequences and every pixel algebra: cached views and jpgs are always current and sit on frozen read-only arrays (C10_inv, C10_cached_view_current, C10_cached_jpg_frozen), views show the source's current pixels (C10_view_shows), promised copies sit on fresh arrays (C10_fresh), read-only never becomes writable (C10_ro_never_rw); tie = differential run of real Frame objects against the compiled model after every step (exhaustive to length 3 quick / 4 thorough + random to 40) plus an independent numpy oracle of the property's clauses.",
             "a read-only array handed to Frame() has no writable alias; numpy/OpenCV trusted as the pixel algebra (swap, luminance, replication tested each step)",
             "Lean 4 proof (heap invariant by induction over op sequences) + differential correspondence")
+C['C04'] = ("proof", "Lean theorems for every event sequence of a non-balanced sender outside push mode: C04_requested_inv (whenever the sender has decided to send, every tracked synchronised client has an unanswered request), C04_publish_consumes (a publish needs that and clears the flag of every tracked client), C04_requested_only_by_request (the flag is set only by taking a request of that client off the queue) - the potential argument bounding publishes after a stall by [requested] + queued requests; tie = call-by-call comparison with the real ZMQSender; oracle = the potential bound measured on the real object after each client's last request.",
+            "partial: requests in flight in the network, the receiver's request rate and the composition along relays are explored (pipeline simulation), not proved; the counting corollary C04_potential is stated in prose over the three proved lemmas",
+            "Lean 4 invariant proofs over sender events + differential trace correspondence + potential-bound oracle")
+C['C17'] = ("proof", "All size laws (maxsize/minsize bounds, never enlarge/shrink, exact resize, video resize inside and largest, aspect within one pixel, + forms independent, no zero dimension incl. whole chains) are Lean theorems over all sizes >= 1 and every admissible float rounding; flips/rotations are proved involutive/inverse index permutations, format conversions size-preserving, box colour/paint exact. The model is tied to the real Util.execute_xforms and VideoReader.thread_reader by exhaustive-small plus random differential runs on every invocation; box-inside is partial (exact for dyadic coordinates, within one pixel otherwise).",
+            "relational float model int(a*b/c) = a*b div c and int(a*(n/d)) in {floor q, q-1 if q integer} is checked empirically each run, not proved; cv2 flip/rotate/cvtColor/rectangle modelled as permutations/maps and compared with real cv2; resampled pixel content not compared",
+            "Lean 4 arithmetic proofs (all sizes, all roundings) + differential correspondence")
 m = {"version": 1, "setup_cmd": "./setup.sh",
      "hooks": {"guard": "OPENFILTER_VERIF", "enable": "no source hooks are needed: the harness monkey-patches module attributes from outside (zeromq.zmq, time_ns, sleep, Filter.emitter)",
                "baseline_off_cmd": "cd /repo && /venv/bin/python -m pytest -ra -q -p no:cacheprovider --timeout=900 --continue-on-collection-errors", "source_commits": [], "add_only": True},
